@@ -39,12 +39,9 @@ Inductive op :=
 Definition trace := list (request * response).
 
 (* media types *)
-Definition mt_docker_manifest := g_mt_docker_manifest.   (* internal/docker/mediatype.go *)
-Definition mt_docker_list := g_mt_docker_list.
 Definition mt_oci_manifest := b "application/vnd.oci.image.manifest.v1+json".
-Definition mt_artifact := g_mt_artifact.               (* internal/spec/artifact.go *)
-Definition default_mts : list str :=
-  [mt_docker_manifest; mt_docker_list; mt_oci_manifest; mt_index; mt_artifact].
+(* registry/remote/manifest.go defaultManifestMediaTypes (regenerated from the source) *)
+Definition default_mts : list str := defaultManifestMediaTypes.
 
 Definition mem_str (x : str) (l : list str) : bool := existsb (str_eqb x) l.
 
@@ -55,9 +52,10 @@ Fixpoint join_comma (l : list str) : str :=
   | x :: r => x ++ b ", " ++ join_comma r
   end.
 
-(* the switch of pushWithIndexing / deleteWithIndexing *)
-Definition indexable (mt : str) : bool :=
-  str_eqb mt mt_artifact || str_eqb mt mt_oci_manifest || str_eqb mt mt_index.
+(* the first case list of the switch in pushWithIndexing / deleteWithIndexing
+   (regenerated from the source) *)
+Definition indexable (mt : str) : bool := existsb (str_eqb mt) indexed_on_push.
+Definition indexable_del (mt : str) : bool := existsb (str_eqb mt) indexed_on_delete.
 
 (* referrersState *)
 Inductive rstate := RSUnknown | RSSupported | RSUnsupported.
@@ -346,7 +344,7 @@ Section Client.
 
   (* deleteWithIndexing *)
   Definition man_delete (s : srv) (rst : rstate) (d : desc) : srv * rstate * trace * result :=
-    if indexable (d_mt d) && negb (rs_supported rst) then
+    if indexable_del (d_mt d) && negb (rs_supported rst) then
       let '(s1, t1, res) := man_fetch s d in
       match res with
       | RBytes c =>
